@@ -1,6 +1,7 @@
 /- Line-protocol driver. Input lines: `<op> <args…> => <implementation output>`; first line `cfg …`.
    Output per line: `ok [tags]` or `FAIL [M][S] model=<…> spec=<…> got=<…>`. -/
 import Driver.C01
+import Driver.C02
 import Driver.C15
 import Driver.C07
 import Driver.C14
@@ -13,6 +14,7 @@ structure Conf where
   size : Nat := 34
   digs : Nat := 16
   extra : List (String × String) := []
+  fp : Option C02.Env := none
 
 def parseCfg (toks : List String) : Conf :=
   toks.foldl (fun c t =>
@@ -28,7 +30,9 @@ def parseCfg (toks : List String) : Conf :=
 def dispatch (c : Conf) (op : String) (args : List String) (got : String) : Option Verdict :=
   let e01 : C01.Env := { cfg := { w := c.w, cap := c.size }, digs := c.digs }
   let latch := (c.extra.lookup "latch").getD "1" == "1"
-  (C01.handle e01 op args) <|> (C07.handle e01.cfg op args) <|> (C14.handle op args) <|> (C15.handle c.w c.size op args got) <|> (C19.handle latch op args)
+  (C01.handle e01 op args) <|> (match c.fp with
+    | some e => C02.handle e op args got
+    | none => none) <|> (C07.handle e01.cfg op args) <|> (C14.handle op args) <|> (C15.handle c.w c.size op args got) <|> (C19.handle latch op args)
 
 def processLine (c : Conf) (line : String) : String :=
   match line.splitOn " => " with
@@ -61,6 +65,19 @@ partial def loop (h : IO.FS.Stream) (out : IO.FS.Stream) (c : Conf) : IO Unit :=
     let c' := parseCfg (rhs.splitOn " ")
     out.putStrLn "cfg"
     loop h out c'
+  else if line.startsWith "fp_param " then
+    -- the running library reports the active field; the derived constants are checked here
+    match line.splitOn " => " with
+    | [_, got] =>
+      match C02.parseEnv c.w got with
+      | some e =>
+        let bad := C02.checkParam e
+        out.putStrLn (if bad.isEmpty then "ok fp_param" else "FAIL S model=[] spec=[" ++ String.intercalate ";" bad ++ "] got=[" ++ got ++ "]")
+        loop h out { c with fp := some e }
+      | none =>
+        out.putStrLn (if got == "err" then "ok fp_param-rejected" else "FAIL S model=[] spec=[parsable fp_param] got=[" ++ got ++ "]")
+        loop h out { c with fp := none }
+    | _ => out.putStrLn "skip"; loop h out c
   else
     out.putStrLn (processLine c line)
     loop h out c
